@@ -543,8 +543,8 @@ def w_pagination(failure, tier):
     batches = [docs[:5], docs[5:10], docs[10:]]
     def sort(p):
         return [{"field": f, "order": o} for (f, o) in p]
-    for p in plans:
-        full, err = drive_search({"schema": None, "schema_add": add, "batches": batches, "requests": [dict(REQ_BASE, query="alpha", limit=1000, sort=sort(p))]})
+    for p, query in [(p, q) for q in ("alpha", {"type": "match_all"}) for p in plans]:
+        full, err = drive_search({"schema": None, "schema_add": add, "batches": batches, "requests": [dict(REQ_BASE, query=query, limit=1000, sort=sort(p))]})
         if full is None or 'ok' not in full[0]:
             continue
         want = [(h['doc_id'], h['score']) for h in full[0]['ok']['hits']]
@@ -552,7 +552,7 @@ def w_pagination(failure, tier):
             got = []
             cursor = None
             for _ in range(40):
-                req = dict(REQ_BASE, query="alpha", limit=size, sort=sort(p))
+                req = dict(REQ_BASE, query=query, limit=size, sort=sort(p))
                 if cursor:
                     req['cursor'] = cursor
                 out, err = drive_search({"schema": None, "schema_add": add, "batches": batches, "requests": [req]})
@@ -560,15 +560,20 @@ def w_pagination(failure, tier):
                     got.append(('ERROR', str(out)[:200]))
                     break
                 got += [(h['doc_id'], h['score']) for h in out[0]['ok']['hits']]
+                tot = out[0]['ok'].get('total_hits_estimate', 0)
+                if tot > len(want):
+                    return dict(found=True, cmd='%s search <<< hex(json) (one request per page)' % BIN,
+                                input='14 documents in 3 segments, query %s, sort %s, page size %d, page %d of the cursor walk' % (_json.dumps(query), p or 'default', size, len(got) // size),
+                                observed='total_hits_estimate %d' % tot, expected='at most the %d true matches' % len(want))
                 cursor = out[0]['ok'].get('next_cursor')
                 if not cursor:
                     break
             if got != want:
                 return dict(found=True, cmd='%s search <<< hex(json) (one request per page)' % BIN,
-                            input='14 documents in 3 segments, query alpha, sort %s, page size %d, following next_cursor' % (p or 'default', size),
+                            input='14 documents in 3 segments, query %s, sort %s, page size %d, following next_cursor' % (_json.dumps(query), p or 'default', size),
                             observed='pages concatenate to %s' % [g[0] for g in got],
                             expected='%s (the hits of a single request with limit 1000, same order and scores)' % [w[0] for w in want])
-    return dict(found=False, note='pagination: %d sort plans x 4 page sizes over 14 documents in 3 segments: every walk equals the single big request' % len(plans))
+    return dict(found=False, note='pagination: 2 queries x %d sort plans x 4 page sizes over 14 documents in 3 segments: every walk equals the single big request and no total exceeds the true count' % len(plans))
 
 
 # ---------------------------------------------------------------- U13 explain flag
